@@ -622,12 +622,14 @@ def _mdef(ck, prog, E, api):
     guard = None
     for st in f.body():
         if isinstance(st, ast.If) and unparse(st.test).replace(" ", "") in ("len(grps)>0", "len(grps)!=0", "grps"):
-            guard = st
+            guard, empty_arm, full_arm = st, st.orelse, st.body
+        elif isinstance(st, ast.If) and unparse(st.test).replace(" ", "") in ("len(grps)==0", "len(grps)<1", "notgrps", "grps==[]", "notlen(grps)"):
+            guard, empty_arm, full_arm = st, st.body, st.orelse            # the same test written the other way round: the fill is the `if` arm
     ok_i = ok_ii = False
     lits = []
     ck.shape(guard is not None, "linearCompositions: emptiness test of the groups parameter", f.loc())
     if guard is not None:
-        else_calls = [n for b in guard.orelse for n in ast.walk(b) if isinstance(n, ast.Call) and isinstance(n.func, ast.Attribute)
+        else_calls = [n for b in empty_arm for n in ast.walk(b) if isinstance(n, ast.Call) and isinstance(n.func, ast.Attribute)
                       and n.func.attr in ("append", "extend", "insert") and unparse(n.func.value) == "grps"]
         all_muts = [n for n in ast.walk(f.node) if isinstance(n, ast.Call) and isinstance(n.func, ast.Attribute)
                     and n.func.attr in ("append", "extend", "insert", "pop", "remove", "clear", "sort") and unparse(n.func.value) == "grps"]
@@ -643,8 +645,8 @@ def _mdef(ck, prog, E, api):
     # premise iii: on the non-empty branch the name is rebound to __parse_group images, groups are used only via `in`
     ok_iii = False
     if guard is not None:
-        rebinds = [n for b in guard.body for n in ast.walk(b) if isinstance(n, ast.Assign) and unparse(n.targets[0]) == "grps"]
-        parses = [n for b in guard.body for n in ast.walk(b) if isinstance(n, ast.Call) and getattr(n.func, "attr", "") == "__parse_group"]
+        rebinds = [n for b in full_arm for n in ast.walk(b) if isinstance(n, ast.Assign) and unparse(n.targets[0]) == "grps"]
+        parses = [n for b in full_arm for n in ast.walk(b) if isinstance(n, ast.Call) and getattr(n.func, "attr", "") == "__parse_group"]
         ok_iii = bool(rebinds) and bool(parses)
     ck.ob("MDEF-idempotent-fill", construct, ok_iii, expected="non-empty branch rebinds the name to validated copies (a second call computes what the first did)",
           found=ok_iii, slot="premise-iii", where=f.loc())
